@@ -25,6 +25,9 @@ CHECKS = {
  "C15": dict(level="model_checking", design="5/C15",
    technique="relational (self-composition) per-path symbolic execution of the real server wrapping, parser, proxy middleware and environ construction: same request with and without symbolic proxy headers from a symbolic untrusted peer; z3 decides equality of the metadata keys",
    text="For 7 configurations x trusted_proxy_count 1..4 and a symbolic peer address different from the trusted proxy, every proxy header with a fully symbolic value (<=3 bytes quick, <=4 thorough), hostile templates with a symbolic byte at every position, and all six headers together are sent through the real TcpWSGIServer wrapping, HTTPChannel, parser and WSGITask; on every path z3 decides that the seven metadata keys equal those of the run without the headers and that, with clearing on, no proxy header key reaches the application."),
+ "C08": dict(level="model_checking", design="5/C08",
+   technique="per-path symbolic execution of the real start_response / build_response_header / channel.service 500 path with status, header names and values as symbolic unicode strings (21-bit cells); z3 decides line-exactness of the emitted head or the server-built 500",
+   text="Status strings, header names and values with up to 4 (quick) / 5 (thorough) fully symbolic code points over [0,0xFF]+{U+2028,U+10000} - so the offending character and its position are symbolic - plus every hop-by-hop name with a symbolic character, non-str names/values/status, both start_response calls (exc_info before and after output) and a header list mutated after the call. Per path z3 decides: if any string contains CR/LF, is non-latin-1, hop-by-hop or not a str, the wire is the server-built 500 made of server strings only and the connection closes; otherwise the head's only CR/LF are terminators, the status line is the application's, each application field is exactly one line (name equal up to case) and every other line is a server field."),
 }
 NA = {}
 checks = []
